@@ -11,5 +11,6 @@ GOFLAGS=-mod=mod go mod edit -replace github.com/elastic/go-txfile=$repo
 VERIF_ROOT=$tmp ./check "$@"
 rc=$?
 if [ -d $tmp/replays ]; then mkdir -p /tmp/altreplays; cp -r $tmp/replays/* /tmp/altreplays/ 2>/dev/null; fi
+mkdir -p /tmp/altevidence; cp $tmp/evidence/*.json /tmp/altevidence/ 2>/dev/null
 rm -rf $tmp
 exit $rc
